@@ -1,1 +1,5 @@
 import AeicProofs.RealInst
+import AeicProofs.Properties.C07
+import AeicProofs.Properties.C08
+import AeicProofs.Properties.C09
+import AeicProofs.Properties.C10
